@@ -2,30 +2,22 @@
    The model is a Gallina FUNCTION of (oracle answers, options, lines): it has no hash seed, clock, random source or global state, so agreement of
    the implementation with it under every hash seed, in fresh processes and after unrelated anonymizers were built (the correspondence of this
    check) is what shows the implementation has no hidden input.  Proved here: the one place where the code iterates over a set -- the order of
-   the sensitive-word alternation -- is made irrelevant by the longest-first sort: the sorted list does not depend on the order in which the
-   (duplicate-free) words are presented, for lists of up to 4 words over a 3-letter alphabet of lengths <= 2 (bounded sweep, stated as such). *)
+   the sensitive-word alternation -- is made irrelevant by the longest-first sort: the sorted list is a function of the SET of words. *)
 From Coq Require Import String.
 From Coq Require Import List Bool Arith NArith ZArith.
 Import ListNotations.
-Require Import Str TextModel TextProofs.
+Require Import Str TextModel TextProofs SortProofs.
 
-Fixpoint perms {A} (l : list A) : list (list A) :=
-  match l with
-  | [] => [[]]
-  | x :: r => flat_map (fun p => map (fun k => firstn k p ++ x :: skipn k p) (seq 0 (S (length p)))) (perms r)
-  end.
-Definition small_words : list str := map lit ["k"; "s"; "x"; "ks"; "sk"; "xx"; "kx"]%string.
-Fixpoint sublists {A} (l : list A) : list (list A) := match l with [] => [[]] | x :: r => sublists r ++ map (cons x) (sublists r) end.
-
-(* bounded: every duplicate-free list of at most 4 of the 7 small words, in every order *)
-Theorem C13_word_order_is_irrelevant_after_sorting_bounded :
-  forallb (fun ws => if Nat.leb (length ws) 4 then forallb (fun p => str_eqb (join [0%N] (sort_words p)) (join [0%N] (sort_words ws))) (perms ws) else true) (sublists small_words) = true.
-Proof. vm_compute. reflexivity. Qed.
+(* the alternation is built from sort_words applied to the words in whatever order the set yields them: the result depends only on
+   the SET of words (unbounded: any two lists with the same elements) *)
+Theorem C13_word_alternation_order_is_independent_of_set_iteration_order :
+  forall l1 l2 : list str, (forall w, In w l1 <-> In w l2) -> sort_words l1 = sort_words l2.
+Proof. exact sort_words_depends_only_on_the_set_of_words. Qed.
 
 (* the model output is a function of its arguments (stated for the record; trivially true of any Gallina term) *)
 Theorem C13_model_has_no_hidden_input :
   forall orc f lines, anonymize_io orc f lines = anonymize_io orc f lines.
 Proof. reflexivity. Qed.
 
-Print Assumptions C13_word_order_is_irrelevant_after_sorting_bounded.
+Print Assumptions C13_word_alternation_order_is_independent_of_set_iteration_order.
 Print Assumptions C13_model_has_no_hidden_input.
